@@ -31,6 +31,16 @@ def c17_table(n):
     for idx in range(9 ** n):
         o = [(idx // 9 ** (n - 1 - i)) % 9 for i in range(n)]
         f = icao.significant_cloud(list(o))
+        if idx % 3 == 0:
+            # the answer belongs to the sequence, not to the call history: the caller edits the list it got in place (clears a flag,
+            # appends one), then asks again about an equal sequence; the table holds the second answer
+            try:
+                if len(f):
+                    f[-1] = not f[-1]
+                f.append(True)
+            except (TypeError, AttributeError):
+                pass                      # a result that cannot be edited in place cannot be tampered with
+            f = icao.significant_cloud(list(o))
         v = sum((1 << i) for i, x in enumerate(f) if x is True or x == 1) + (1 << len(f))
         out.append(v)
     return out
@@ -46,6 +56,12 @@ def c17_long(args):
         n = rng.randint(6, 30)
         o = [rng.choice([0, 0, 1, 2, 3, 4, 5, 6, 7, 8]) for _ in range(n)]
         f = icao.significant_cloud(list(o))
+        if len(out) % 2:
+            try:
+                f.append(False)
+            except (TypeError, AttributeError):
+                pass
+            f = icao.significant_cloud(tuple(o)) if len(out) % 4 == 1 else icao.significant_cloud(list(o))
         out.append({'o': o, 'f': [bool(x) for x in f]})
     return out
 
@@ -188,7 +204,11 @@ def _build_screen_obj(f):
         df['type'] = df['type'].astype(str)
     if f['extra']:
         df['station'] = ['LSGG'] * len(df)
-        df['seq'] = list(range(len(df)))
+        if len(df) % 2:
+            df['seq'] = list(range(len(df)))
+        else:
+            df[0] = list(range(len(df)))          # column labels need not be strings (pd.concat([frame, series], axis=1))
+            df[(1, 'x')] = 0.5
     if f['missing'] != 'none':
         df = df.drop(columns=[f['missing']])
     o = f['obj']
